@@ -20,6 +20,15 @@ def affinity_scenarios(tier):
     if tier != "quick":
         base += [seq["seq-wait-and-task"], seq["seq-catch"], seq["seq-timeout"], seq["seq-express"], ok["par-2x2"], ok["map-n2-mc0"], ok["par-in-map"], ok["par-invoke"],
                  ch["child-sync-fails-caught"], ch["child-sync-in-map"], ch["token-failure"], ch["token-duplicate"], ch["child-sdk-express-fails"], ch["token-rpc-reply-before-callback"]]
+    # instances that are still starting up when the first start events arrive (first start of their ids: no per-instance queue exists yet);
+    # start_asyncio is resumed confirmation by confirmation
+    for s0, n in ((seq["seq-two-exec-one-machine"], 1), (ok["par-2x1"], 1), (seq["seq-two-exec-one-machine"], 2)):
+        s = copy.deepcopy(s0)
+        s["name"] = "%s@%dxslowstart" % (s0["name"], n); s["family"] = "%s@%dslow" % (s0["family"], n)
+        s["instances"] = n; s["slow_start"] = "always"
+        if n > 1:
+            s["store"] = "redis"; s["post_bound"] = 2
+        out.append(s)
     for s0 in base:
         for n in ((1, 2, 3) if tier != "quick" or s0["name"] in ("seq-two-exec-one-machine", "seq-async-child") else (1, 2)):
             for qt in (("classic", "quorum") if tier != "quick" or s0["name"] in ("seq-two-exec-one-machine", "child-sync-ok", "token-success") else ("classic",)):
@@ -290,7 +299,10 @@ def canonical_oplog(sc, transport):
     from harness.fingerprint import UUID_RE
     w = World(dict(sc, transport=transport))
     w.run()
-    rows = [list(d) for d in w.broker.declared]
+    # what each transport declares while it starts up is compared as a set (the order in which an instance sets up its consumers is not
+    # behaviour: the asyncio start-up subscribes to its own queue before the shared one, see the fix recorded for C03); the traffic of
+    # the run itself is compared in order
+    rows = sorted(([list(d) for d in w.broker.declared]), key=lambda r: json.dumps(r, sort_keys=True, default=str))
     for op in w.broker.oplog[w.setup_ops:]:
         if op["op"] in ("publish", "ack", "deliver"):
             rows.append([op["op"], op.get("queue") or op.get("routing_key"), op.get("exchange"), op.get("message_id"), op.get("correlation_id"), op.get("reply_to"), op.get("expiration"),
@@ -327,7 +339,7 @@ def _dup_job(qt):
 
 def run(tier, seed):
     scs = affinity_scenarios(tier)
-    cr = common.engine_check(PROP, scs, MONITORS, tier, seed, monset="route")
+    cr = common.engine_check(PROP, scs, MONITORS, tier, seed, monset="route", bound_for=lambda sc: sc.get("post_bound"))
     jobs = []
     for transport in ("asyncio", "blocking"):
         for role, addr, want in ADDRESSES:
